@@ -33,8 +33,27 @@ def snapshot(L):
     for i, e in L.items():
         snap[i] = {'blocks': [L.bid(b) for b in e.blocks], 'children': [L.eid(c) for c in e.children], 'text': e.text,
                    'sc': e.isSelfClosing, 'attrs': e.getAttributesList(), 'parent': L.eid(e.parentNode),
-                   'owner': L.doc_id(e.ownerDocument), 'html': e.outerHTML}
+                   'owner': L.doc_id(e.ownerDocument)}
     return snap
+
+
+def relevant(L, op):
+    """elements whose serialisation a call can have changed: everything in a small world; else the target, the
+    element arguments, and all their ancestors"""
+    items = L.items()
+    if op is None or len(items) <= 15:
+        return None
+    out = set()
+    todo = [op[1]] + el_args(op)
+    for i in todo:
+        e = L.els[i] if i < len(L.els) else None
+        n = 0
+        while e is not None and n < 200:
+            if e.uid in L.idx:
+                out.add(L.idx[e.uid])
+            e = e.parentNode
+            n += 1
+    return out
 
 
 def el_args(op):
@@ -62,9 +81,11 @@ def reports_failure(op, v):
     return False
 
 
-def laws_failure(L):
+def laws_failure(L, only=None):
     Tag = L.Tag
     for i, e in L.items():
+        if only is not None and i not in only:
+            continue
         o = e.outerHTML
         if o != e.getStartTag() + e.innerHTML + e.getEndTag():
             return ('law-outerHTML', 'element %d: outerHTML %r is not start tag + innerHTML + end tag' % (i, o))
@@ -82,7 +103,7 @@ def laws_failure(L):
     return None
 
 
-def against_reference(L, ref):
+def against_reference(L, ref, only=None):
     live = dict(L.items())
     if sorted(live) != sorted(ref.nodes):
         return ('elements', 'elements %r, the reference has %r' % (sorted(live), sorted(ref.nodes)))
@@ -100,6 +121,8 @@ def against_reference(L, ref):
             return ('text', 'element %d: text %r, reference %r' % (i, e.text, ref.text(n)))
         if [list(a) for a in e.getAttributesList()] != n.attrs:
             return ('attributes', 'element %d: attributes %r, reference %r' % (i, e.getAttributesList(), n.attrs))
+        if only is not None and i not in only:
+            continue
         if e.outerHTML != ref.outer(n):
             return ('serialisation', 'element %d: outerHTML %r, reference %r' % (i, e.outerHTML, ref.outer(n)))
         if e.innerHTML != ref.inner(n):
@@ -178,17 +201,19 @@ class Check(PropCheck):
                 for kind in ('det', 'doc'):
                     if kind != 'det' and D.adjacent_text(seed):
                         continue
-                    for d in D.bfs_cases(seed, kind, 3, 6000, rng):
+                    for d in D.bfs_cases(seed, kind, 3, 2500, rng):
                         if len(d['ops']) > 1:
                             yield Case(d, 'bfs')
-            n, size, ops = 6000, 60, 40
+            n, size, ops = 3000, 60, 40
         else:
             for d in D.exhaustive_cases(12, rng):
                 yield Case(d, 'exhaustive')
-            n, size, ops = 260, 60, 40
+            n, size, ops = 240, 60, 40
         for i in range(n):
             if i % 3 == 0:
                 yield Case(D.random_case(rng, 6, 12), 'random')
+            elif i % 3 == 1:
+                yield Case(D.random_case(rng, 20, 20), 'random')
             else:
                 yield Case(D.random_case(rng, size, ops), 'random')
 
@@ -221,6 +246,9 @@ class Check(PropCheck):
         L = D.Live(d)
         out = [['init'] + dump_state(L, 0)]
         for op in d['ops']:
+            if not L.pre_ok(op):
+                out.append(['precondition-violated'])
+                break
             v = L.apply(op)
             out.append([D.val_sx(v)] + dump_state(L, op[1]))
         return sx(*out)
@@ -233,6 +261,8 @@ class Check(PropCheck):
         if f:
             return (f[0], 'initial tree: ' + f[1])
         for n, op in enumerate(d['ops']):
+            if not L.pre_ok(op):
+                return None         # the history left the domain of the property (an argument is not detached)
             before = snapshot(L)
             known = set(i for i, _ in L.items())
             got = L.apply(op)
@@ -244,7 +274,8 @@ class Check(PropCheck):
             if reports_failure(op, got) and before != after:
                 ch = [i for i in before if before[i] != after.get(i)]
                 return ('failed-call-changed-tree', where + 'reported %r but elements %r changed' % (got, ch))
-            f = frame_failure(L, op, before, after, set(after) - known) or against_reference(L, ref) or laws_failure(L)
+            rel = relevant(L, op)
+            f = frame_failure(L, op, before, after, set(after) - known) or against_reference(L, ref, rel) or laws_failure(L, rel)
             if f:
                 return (f[0], where + f[1])
         return None
